@@ -58,6 +58,8 @@ struct IoState {
     /// (what, virtual time) of the first injected error actually returned to the bridge
     error_returned: Option<(String, io::ErrorKind)>,
     calls: u64,
+    /// event log of the run, for the "local EOF served" mark
+    note: Option<Sh>,
 }
 
 struct ScriptedIo(Arc<Mutex<IoState>>, Vec<u8>);
@@ -108,6 +110,11 @@ impl AsyncBufRead for ScriptedIo {
             match st.rscript.pop_front() {
                 None | Some(REv::Eof) => {
                     st.rscript.clear();
+                    if !st.r_eof_served {
+                        if let Some(sh) = &st.note {
+                            sh.api(0, 0, Api::Note("local-eof-served".into()));
+                        }
+                    }
                     st.r_eof_served = true;
                 }
                 Some(REv::Data(n)) => {
@@ -327,8 +334,10 @@ fn one(st: &mut Stats, seed: u64) {
         shutdown_called: false,
         error_returned: None,
         calls: 0,
+        note: None,
     })), Vec::new());
     let sh = sim::Shared::new(mix(seed, 10), rng.below(4) as u8);
+    io.0.lock().unwrap().note = Some(sh.clone());
     let caps = [*rng.pick(&[1usize, 2, 0]), *rng.pick(&[1usize, 2, 0])];
     let (cfg2, plan2, io2) = (cfg.clone(), plan.clone(), io.clone());
     let end = sim::run(&sh, move |sh: Sh| async move {
@@ -408,6 +417,43 @@ fn one(st: &mut Stats, seed: u64) {
     let an = monitors::analyse(&log, &[Fam::Credit, Fam::Panic], &meta);
     for f in &an.findings {
         fail(st, format!("{}|bridge", f.sig), f.detail.clone());
+    }
+    // one unit of credit per frame sent, and a local EOF becomes a Finish at once (it needs no credit)
+    // (keys are addresses and can be re-used by a stream allocated later: only events after the bridged stream exists count)
+    let mine = log.iter().enumerate().find_map(|(i, r)| match &r.ev {
+        sim::Ev::Api { ep: 0, op: Api::OpenRet { ok: true, key, flow, .. } | Api::Accepted { key, flow, .. }, .. } => Some((i, *key, *flow)),
+        _ => None,
+    });
+    if let (Some((from, key0, flow0)), true) = (mine, matches!(end, sim::RunEnd::Finished(_))) {
+        let taken = log[from..].iter().filter(|r| matches!(&r.ev, sim::Ev::Hook { key, kind: penguin_mux::verif::Kind::CreditTaken { .. }, .. } if *key == key0)).count();
+        let pushes = log.iter().filter(|r| matches!(&r.ev, sim::Ev::Sent { ep: 0, m: sim::Wm::Push { id, .. } } if *id == flow0)).count();
+        st.count("bridge_credit_units_taken", taken as u64);
+        if taken != pushes && ios.error_returned.is_none() {
+            fail(st, "credit-unit-without-frame".into(), format!("the bridge took {taken} units of send credit but {pushes} Push frames of its stream reached the wire (one unit per frame sent)"));
+        }
+        let reset_seen = log.iter().any(|r| matches!(&r.ev, sim::Ev::Sent { m: sim::Wm::Reset { id }, .. } if *id == flow0));
+        let eof_at = log.iter().find_map(|r| match &r.ev {
+            sim::Ev::Api { ep: 0, op: Api::Note(n), .. } if n == "local-eof-served" => Some(r.t),
+            _ => None,
+        });
+        if let (Some(t_eof), false, true) = (eof_at, reset_seen, ios.error_returned.is_none()) {
+            st.target("local_eof_served_runs", 1);
+            let fin_at = log.iter().find_map(|r| match &r.ev {
+                sim::Ev::Sent { ep: 0, m: sim::Wm::Finish { id } } if *id == flow0 => Some(r.t),
+                _ => None,
+            });
+            let credit_was_zero = log[from..].iter().rev().find_map(|r| match &r.ev {
+                sim::Ev::Hook { key, kind: penguin_mux::verif::Kind::CreditTaken { left }, .. } if *key == key0 && r.t <= t_eof => Some(*left == 0),
+                _ => None,
+            }).unwrap_or(false);
+            if credit_was_zero {
+                st.target("local_eof_with_credit_exhausted", 1);
+            }
+            match fin_at {
+                Some(t) if t <= t_eof + 3_000 => {}
+                other => fail(st, "finish-delayed-after-local-eof".into(), format!("the local side reached EOF at {t_eof} us but the Finish frame {} (half-close must not wait for credit or traffic)", other.map_or("was never sent".to_string(), |t| format!("was sent at {t} us")))),
+            }
+        }
     }
     // the far application's reads are PRF-checked by its actor
     for r in &log {
